@@ -56,7 +56,8 @@ def gen(g, count, reps):
             # the same for element values (element-total orders the resolved database by value)
             names = sorted([n for n, _ in book], reverse=True)
             kcal = {n: Fraction(100) + k * delta for k, n in enumerate(names)}
-            book = [(n, [(i, q) for i, q in ings if i != b'calories'] + [(b'calories', Qty(dec_str(kcal[n]), kcal[n], False))]) for n, ings in book]
+            # (no recipe inside a recipe here: a sum of near-tied figures rounds, and the rounding may reorder them, which is not what is tested)
+            book = [(n, [(i, q) for i, q in ings if i != b'calories' and i not in kcal] + [(b'calories', Qty(dec_str(kcal[n]), kcal[n], False))]) for n, ings in book]
             exact = False
             g.r.random()
         if r.random() < 0.2:
